@@ -148,4 +148,67 @@ def cutBy : List Nat → Bytes → List Bytes
   | [], b => [b]
   | k :: ks, b => if b.length ≤ k.max 1 then [b] else b.take (k.max 1) :: cutBy ks (b.drop (k.max 1))
 
+/-! ### the write side under flow control
+
+The peer does not read, the kernel buffers are full and the stream writer is above its high-water mark: `drain()` does
+not return, so `write(timeout)` raises `TimeoutError` after having handed the line to the writer (it stays queued and
+goes out later), and `request()` fails in its WRITE half - before its read half has started - or is cancelled by its
+caller there.  The stream from the peer is healthy all the time. -/
+
+inductive FOp
+  | base (o : Op)
+  | stall                -- from now on `drain()` blocks
+  | resume               -- the peer reads again
+deriving DecidableEq, Repr
+
+structure FClient where
+  c : Client := {}
+  stalled : Bool := false
+deriving DecidableEq, Repr
+
+inductive FObs
+  | base (o : Obs)
+  | ok
+  | wtimeout             -- the write (half) did not finish: `TimeoutError` / cancellation of the caller
+deriving DecidableEq, Repr
+
+/-- one operation of the flow-controlled client: a `write` / `request` on a stalled writer queues its line and fails;
+    the request's read half never runs, the reader is not touched.  Everything else is `cstep`. -/
+def fstep (f : FClient) : FOp → FClient × FObs
+  | .stall => ({ f with stalled := true }, .ok)
+  | .resume => ({ f with stalled := false }, .ok)
+  | .base o =>
+    if f.stalled then
+      match o with
+      | .write m => ({ f with c := { f.c with out := f.c.out ++ enc m } }, .wtimeout)
+      | .request m => ({ f with c := { f.c with out := f.c.out ++ enc m } }, .wtimeout)
+      | o => ({ f with c := (cstep f.c o).1 }, .base (cstep f.c o).2)
+    else ({ f with c := (cstep f.c o).1 }, .base (cstep f.c o).2)
+
+def frun (f : FClient) : List FOp → FClient × List FObs
+  | [] => (f, [])
+  | op :: ops => ((frun (fstep f op).1 ops).1, (fstep f op).2 :: (frun (fstep f op).1 ops).2)
+
+/-- the same execution without flow control: a request whose write half failed did what a plain `write` does -/
+def eraseOp (stalled : Bool) : Op → Op
+  | .request m => if stalled then .write m else .request m
+  | o => o
+
+def eraseFlow : Bool → List FOp → List Op
+  | _, [] => []
+  | _, .stall :: r => eraseFlow true r
+  | _, .resume :: r => eraseFlow false r
+  | st, .base o :: r => eraseOp st o :: eraseFlow st r
+
+/-- the results of the reads (and of the read halves of requests) of an execution, in order -/
+def readResults : List Obs → List ReadRes
+  | [] => []
+  | .res r :: t => r :: readResults t
+  | _ :: t => readResults t
+
+def freadResults : List FObs → List ReadRes
+  | [] => []
+  | .base (.res r) :: t => r :: freadResults t
+  | _ :: t => freadResults t
+
 end Gallia.Lines
